@@ -540,7 +540,10 @@ Stall(detail) == IF LostWakeupAhead(l + 1) THEN V(<<"C03", "C16">>, "lost-wakeup
 HeadNotWritten ==
   LET m == Head(msgQ) nx == NextPollOf(m.op, l) IN
     IF nx.kind = "MaximumPacketSizeExceeded" THEN V("C12", "rejected-under-limit", <<m.pk.t, m.pk.len, S.M>>)
-    ELSE IF nx.kind = "QuotaExceeded" THEN V("C10", "rejected-under-quota", <<S.quota, S.R>>)
+    ELSE IF nx.kind = "QuotaExceeded" /\ m.pk.t = "PUBREL" THEN V(<<"C06", "C10">>, "pubrel-refused-by-quota", <<m.pk.id, S.quota>>)
+    ELSE IF nx.kind = "QuotaExceeded" THEN
+           (IF g.szrej > 0 THEN V(<<"C12", "C10">>, "refused-request-left-quota-behind", <<S.quota, S.R, g.szrej>>)
+            ELSE V("C10", "rejected-under-quota", <<S.quota, S.R>>))
     ELSE IF m.pk.t \in {"PUBLISH", "PUBREL"} THEN V("C06", "request-not-written", <<m.pk.t, nx.kind>>)
     ELSE V("C05", "request-not-written", <<m.pk.t, nx.kind>>)
 
@@ -614,6 +617,7 @@ ClassifyPollOp ==
         (IF want.kind = "ContextExited" THEN V("C14", "hangs-after-context-gone", <<ops[Ln.k].kind, ops[Ln.k].st>>)
          ELSE V(WithC15("C05"), "completion-withheld", <<ops[Ln.k].kind, want.r, want.kind>>))
     ELSE IF want.kind = "ContextExited" \/ got.kind = "ContextExited" THEN V("C14", "wrong-result-after-exit", <<want.kind, got.kind>>)
+    ELSE IF got.kind = "QuotaExceeded" /\ ops[Ln.k].st = "wait2" THEN V(<<"C06", "C10">>, "pubrel-refused-by-quota", <<want.r, want.kind>>)
     ELSE IF want.kind = "MaximumPacketSizeExceeded" THEN V("C12", "size-result", <<want.kind, got.kind>>)    \* the size rule comes first
     ELSE IF got.kind = "QuotaExceeded" /\ g.szrej > 0 THEN V(<<"C12", "C10">>, "refused-request-left-quota-behind", <<want.kind, got.kind, g.szrej>>)
     ELSE IF want.kind = "QuotaExceeded" \/ got.kind = "QuotaExceeded" THEN V("C10", "quota-result", <<want.kind, got.kind>>)
